@@ -11,6 +11,13 @@ Layer T2 facts for C12 (xrspatial/classify.py) -> lean/XrsVerif/Gen/ClassifyFact
 * `quantileGridIndexed`     the percentile grid is built from an integer `arange` (exactly k points) and its
                             last point is set to 100.0 unconditionally
 * `eqIntLastForced`         `cuts[-1] = max_data` is executed on every path of `_run_equal_interval`
+* `runBinCasts`             what `_run_numpy_bin` does to each operand before `_cpu_bin` compares them: `Cast.none`
+                            (handed on as it is / `np.asarray(x)` without dtype), `Cast.dtype "float32"` (a fixed
+                            dtype), `Cast.dataDtype` (`dtype=data.dtype`), `Cast.other src` (anything else);
+                            `callOk`: the function is exactly those re-bindings followed by
+                            `_cpu_bin(data, bins, new_values)` whose result is returned
+* `binChainPassThrough`     `reclassify` -> `_bin` -> (`_run_dask_numpy_bin` ->) `_run_numpy_bin` hand `agg.data`, `bins`,
+                            `new_values` on without re-binding them
 """
 import ast
 import os
@@ -246,6 +253,110 @@ def eq_int_last_forced(mod):
     return len(calls) == 1 and len(calls[0].args) >= 2 and ast.unparse(calls[0].args[1]) == "cuts"
 
 
+NP = ("np", "numpy", "module")
+OPERANDS = ("data", "bins", "new_values")
+
+
+def dtype_expr(n):
+    """a dtype argument -> ('dtype', name) | ('dataDtype',) | None"""
+    src = ast.unparse(n)
+    if isinstance(n, ast.Constant) and isinstance(n.value, str):
+        return ("dtype", n.value)
+    if isinstance(n, ast.Attribute) and isinstance(n.value, ast.Name) and n.value.id in NP:
+        return ("dtype", n.attr)
+    if src == "data.dtype":
+        return ("dataDtype",)
+    if isinstance(n, ast.Name) and n.id in ("float", "int"):
+        return ("dtype", {"float": "float64", "int": "int64"}[n.id])
+    return None
+
+
+def cast_of(value, name):
+    """the right-hand side of `name = value` as a cast of `name`"""
+    src = ast.unparse(value)
+    if isinstance(value, ast.Name) and value.id == name:
+        return ("none",)
+    if isinstance(value, ast.Call):
+        f = value.func
+        is_np = isinstance(f, ast.Attribute) and isinstance(f.value, ast.Name) and f.value.id in NP
+        if is_np and f.attr in ("asarray", "asanyarray", "array", "ascontiguousarray") and len(value.args) >= 1 \
+                and isinstance(value.args[0], ast.Name) and value.args[0].id == name:
+            dt = list(value.args[1:2]) + [k.value for k in value.keywords if k.arg == "dtype"]
+            other_kw = [k.arg for k in value.keywords if k.arg not in ("dtype", "copy", "order")]
+            if len(value.args) > 2 or other_kw or len(dt) > 1:
+                return ("other", src)
+            if not dt:
+                return ("none",)
+            return dtype_expr(dt[0]) or ("other", src)
+        if isinstance(f, ast.Attribute) and f.attr == "astype" and isinstance(f.value, ast.Name) and f.value.id == name \
+                and len(value.args) == 1:
+            return dtype_expr(value.args[0]) or ("other", src)
+    return ("other", src)
+
+
+def run_bin_casts(mod):
+    """`_run_numpy_bin`: the casts of its three operands and whether the rest is the plain call of `_cpu_bin`"""
+    f = find_func(mod, "_run_numpy_bin")
+    casts = {n: ("none",) for n in OPERANDS}
+    if f is None or [a.arg for a in f.args.args] != list(OPERANDS):
+        return {n: ("other", "?") for n in OPERANDS}, False
+    ok, called, ret = True, None, None
+    for st in f.body:
+        if isinstance(st, ast.Expr) and isinstance(st.value, ast.Constant):
+            continue                                   # docstring
+        if isinstance(st, ast.Assign) and len(st.targets) == 1 and isinstance(st.targets[0], ast.Name):
+            tgt = st.targets[0].id
+            if tgt in OPERANDS and called is None:
+                c = cast_of(st.value, tgt)
+                if c != ("none",):
+                    casts[tgt] = c if casts[tgt] == ("none",) else ("other", ast.unparse(st.value))
+                continue
+            if called is None and ast.unparse(st.value) == "_cpu_bin(data, bins, new_values)":
+                called = tgt
+                continue
+        if isinstance(st, ast.Return) and st.value is not None and ret is None:
+            src = ast.unparse(st.value)
+            if called is None and src == "_cpu_bin(data, bins, new_values)":
+                called = ret = "<direct>"
+                continue
+            if called is not None and src == called:
+                ret = called
+                continue
+        ok = False
+        # a statement that is not understood may touch any operand
+        for n in ast.walk(st):
+            if isinstance(n, ast.Name) and isinstance(n.ctx, ast.Store) and n.id in OPERANDS:
+                casts[n.id] = ("other", ast.unparse(st).splitlines()[0])
+    return casts, bool(ok and called and ret)
+
+
+def bin_chain_pass_through(mod):
+    """reclassify / _bin / _run_dask_numpy_bin hand the operands on unchanged"""
+    def stores(f, names):
+        return any(isinstance(n, ast.Name) and isinstance(n.ctx, ast.Store) and n.id in names for n in ast.walk(f))
+    rc, b, d = find_func(mod, "reclassify"), find_func(mod, "_bin"), find_func(mod, "_run_dask_numpy_bin")
+    if rc is None or b is None or d is None:
+        return False
+    src_rc, src_b, src_d = ast.unparse(rc), ast.unparse(b), ast.unparse(d)
+    ok = not stores(rc, ("agg", "bins", "new_values")) and "out = _bin(agg, bins, new_values)" in src_rc
+    ok = ok and not stores(b, ("agg", "bins", "new_values")) and "numpy_func=_run_numpy_bin" in src_b \
+        and "dask_func=_run_dask_numpy_bin" in src_b and "out = mapper(agg)(agg.data, bins, new_values)" in src_b
+    ok = ok and not stores(d, ("data", "bins", "new_values")) \
+        and "_func = partial(_run_numpy_bin, bins=bins, new_values=new_values)" in src_d \
+        and "out = data.map_blocks(_func)" in src_d
+    return bool(ok)
+
+
+def lean_cast(c):
+    if c[0] == "none":
+        return ".none"
+    if c[0] == "dataDtype":
+        return ".dataDtype"
+    if c[0] == "dtype":
+        return f'.dtype "{c[1]}"'
+    return '.other "' + c[1].replace("\\", "\\\\").replace('"', '\\"') + '"'
+
+
 def generate(repo):
     mod = ast.parse(open(os.path.join(repo, REL)).read())
     rep = {}
@@ -261,6 +372,9 @@ def generate(repo):
     nbj, nbf = natural_break_facts(mod)
     qg, qsrc = quantile_grid_indexed(mod)
     eq = eq_int_last_forced(mod)
+    casts, call_ok = run_bin_casts(mod)
+    chain = bin_chain_pass_through(mod)
+    rep.update(runBinCasts=dict({k: list(v) for k, v in casts.items()}, callOk=call_ok), binChainPassThrough=chain)
     rep.update(jenksBreakDtype=kdt, jenksMatrixDtype=mdt, nbLastForcedJenks=nbj, nbLastForcedFallback=nbf,
                quantileGridIndexed=qg, quantileGridSource=qsrc, eqIntLastForced=eq)
     b = lambda v: "true" if v else "false"
@@ -284,6 +398,11 @@ def generate(repo):
         f"def quantileGridIndexed : Bool := {b(qg)}",
         "/-- `cuts[-1] = max_data` on every path of `_run_equal_interval`, and `cuts` are the bins -/",
         f"def eqIntLastForced : Bool := {b(eq)}",
+        "/-- `_run_numpy_bin`: what happens to each operand before `_cpu_bin(data, bins, new_values)` compares them -/",
+        "def runBinCasts : BinCasts := { data := " + lean_cast(casts["data"]) + ", bins := " + lean_cast(casts["bins"])
+        + ", newValues := " + lean_cast(casts["new_values"]) + ", callOk := " + b(call_ok) + " }",
+        "/-- `reclassify` -> `_bin` -> (`_run_dask_numpy_bin` ->) `_run_numpy_bin` pass `agg.data`, `bins`, `new_values` on unchanged -/",
+        f"def binChainPassThrough : Bool := {b(chain)}",
         "",
         "end XrsVerif.Gen", ""])
     yield "ClassifyFacts.lean", text, rep
